@@ -87,9 +87,18 @@ package build
 // outputHash reads the file system; hashOf is its (uninterpreted) value for the current file-system
 // state, which is assumed not to change during one check.
 //@ spec hashOf(target *core.BuildTarget, outputs []string, hasher *fs.PathHasher, combine bool) []byte
-//@ assume func outputHash
+// (the `value` clause is the abstraction callers rely on; it is not provable from the body — the file system
+// is not modelled — and is tagged unclaimed. What IS checked in the body: every output is hashed afresh, never
+// from the memo, which may predate the build or cache restore that just rewrote the file.)
+//@ func outputHash
+//@   requires target != nil && hasher != nil
 //@   modifies nothing
-//@   ensures value: result0 == hashOf(target, outputs, hasher, combine != nil)
+//@   opt nopanic=off
+//@   opt inline=off
+//@   opt precall=off
+//@   opt callbacks=pure
+//@   ensures value [unclaimed]: result0 == hashOf(target, outputs, hasher, combine != nil)
+//@   callsite (PathHasher).Hash always_recomputed [C35 C02]: arg_recalc
 //
 //@ spec hashOK(target *core.BuildTarget, hashes []string, outputs []string, hasher *fs.PathHasher, combine bool) bool = \
 //@      exists j int :: 0 <= j && j < len(hashes) && len(hashes[j]) == hasher.Size() * 2 && \
@@ -232,7 +241,7 @@ package build
 //@   callsite (PathHasher).CopyHash hash_follows_the_source [C01]: arg_oldPath == from && arg_newPath == to
 //@   callsite fs.RemoveAll only_a_different_file_is_replaced [C03]: arg_path == to && called("isSameFileContent") && !same
 //@   callsite fs.RecursiveCopyOrLinkFile from_source_to_output [C01 C34]: arg_from == from && arg_to == to && called("fs.RemoveAll")
-//@   ensures recorded_hash_follows_the_source [C01]: result1 == nil && !old(in(to, builder.built)) ==> called("(PathHasher).CopyHash")
+//@   ensures recorded_hash_follows_the_source [C01 C11]: result1 == nil && !old(in(to, builder.built)) ==> called("(PathHasher).CopyHash")
 //@   ensures same_file_is_unchanged [C03]: result1 == nil && !old(in(to, builder.built)) && same ==> !result0
 
 // ---------------------------------------------------------------------------------------------
@@ -297,6 +306,7 @@ package build
 //@      collected(W, deref(target.PassEnv)[k]) && collected(W, os.Getenv(deref(target.PassEnv)[k])))
 //@   ensures command [C08]: collected(W, target.GetCommand(state))
 //@   ensures file_content [C08]: collected(W, target.FileContent)
+//@   ensures test_command_when_hashing_for_a_test_run [C08 C11]: runtime && target.IsTest() ==> collected(W, target.GetTestCommand(state))
 //@   ensures entry_points_and_env [C08]: collected(HM, target.EntryPoints) && collected(HM, target.Env)
 
 // ---------------------------------------------------------------------------------------------
